@@ -2,6 +2,7 @@ package engine
 
 import (
 	"fmt"
+	"os"
 	"sort"
 	"strings"
 	"time"
@@ -47,6 +48,7 @@ type Violation struct {
 
 type Limits struct {
 	FeasMS   int
+	IncrMS   int
 	ObligMS  int
 	MaxSteps int64
 	Unwind   int
@@ -127,6 +129,78 @@ func (p *Path) check(extra *smt.Term, ms int) (smt.Result, string) {
 	return r, why
 }
 
+// solve decides satisfiability of pc ∧ extra: a short incremental attempt,
+// then a fresh non-incremental solver process with the full budget.
+// wantModel: on Sat return the input assignment.
+func (p *Path) solve(extra *smt.Term, ms int, wantModel bool) (smt.Result, map[string]string, map[string]map[string]string, string) {
+	if extra.IsFalse() {
+		return smt.Unsat, nil, nil, ""
+	}
+	quick := p.X.Lim.IncrMS
+	if quick <= 0 {
+		quick = 300
+	}
+	if quick > ms {
+		quick = ms
+	}
+	p.S.Push()
+	p.S.Assert(extra)
+	r, why := p.S.Check(quick)
+	if r == smt.Sat && wantModel {
+		m, arrs, err := p.model()
+		p.S.Pop()
+		if err == nil {
+			return smt.Sat, m, arrs, ""
+		}
+		r, why = smt.Unknown, err.Error()
+	} else {
+		p.S.Pop()
+	}
+	if r != smt.Unknown {
+		return r, nil, nil, why
+	}
+	// one-shot
+	asserts := append(append([]*smt.Term(nil), p.pcond...), extra)
+	var want []*smt.Term
+	if wantModel {
+		for _, in := range p.Inputs {
+			if in.Term.S.K != smt.KArr {
+				want = append(want, in.Term)
+			}
+		}
+		for _, sn := range p.selects {
+			want = append(want, sn.idx, p.C.Select(sn.arr, sn.idx))
+		}
+	}
+	p.X.countOneShot()
+	r, vals, why, el, winner := smt.Race(p.X.raceSolvers(), asserts, want, ms)
+	p.X.countWinner(winner)
+	p.S.Time += el
+	p.S.Queries++
+	if r == smt.Sat && wantModel {
+		m := map[string]string{}
+		i := 0
+		for _, in := range p.Inputs {
+			if in.Term.S.K == smt.KArr {
+				continue
+			}
+			m[in.Name] = vals[i]
+			i++
+		}
+		arrs := map[string]map[string]string{}
+		for _, sn := range p.selects {
+			name := sn.arr.Name
+			if arrs[name] == nil {
+				arrs[name] = map[string]string{}
+			}
+			arrs[name][vals[i]] = vals[i+1]
+			i += 2
+		}
+		return r, m, arrs, why
+	}
+	return r, nil, nil, why
+}
+
 // decide returns the branch to follow for a symbolic condition, forking.
 func (p *Path) decide(c *smt.Term) bool {
 	if c.IsConst() {
@@ -176,12 +250,12 @@ func (p *Path) decide(c *smt.Term) bool {
 // unknown counts as feasible.
 func (p *Path) feasible2(c *smt.Term) (bool, bool) {
 	p.nFeasQ++
-	r, _ := p.check(c, p.X.Lim.FeasMS)
+	r, _, _, _ := p.solve(c, p.X.Lim.FeasMS, false)
 	if r == smt.Unsat {
 		return false, true // pc is satisfiable by construction
 	}
 	p.nFeasQ++
-	r2, _ := p.check(p.C.Not(c), p.X.Lim.FeasMS)
+	r2, _, _, _ := p.solve(p.C.Not(c), p.X.Lim.FeasMS, false)
 	return true, r2 != smt.Unsat
 }
 
@@ -289,43 +363,30 @@ func (p *Path) obligation(cond *smt.Term, msg, kind, stack string) {
 		p.samples = append(p.samples, fmt.Sprintf("[%s] pc=%s ; negated obligation=%s", msg, clip(p.pcTerm().String(), 600), clip(q.String(), 600)))
 	}
 	start := time.Now()
-	p.S.Push()
-	p.S.Assert(q)
-	r, why := p.S.Check(p.X.Lim.ObligMS)
+	r, m, arrs, why := p.solve(q, p.X.Lim.ObligMS, true)
 	switch r {
 	case smt.Unsat:
-		p.S.Pop()
 		p.nDischarged++
 	case smt.Sat:
-		m, arrs, err := p.model()
-		p.S.Pop()
-		if err != nil {
-			p.nUnknown++
-			p.X.note("model extraction failed: " + err.Error())
-			break
-		}
 		v := Violation{Harness: p.X.Harness, Msg: msg, Kind: kind, Script: p.fullScript(), Vars: m, Arrs: arrs, Stack: stack, UF: p.C.AbstractMulDiv, Choices: append([]int(nil), p.choices...)}
 		p.violations = append(p.violations, v)
 		panic(abortPath{"violation", msg})
 	default:
-		p.S.Pop()
 		p.nUnknown++
 		p.X.note(fmt.Sprintf("obligation %q: %s after %v", msg, why, time.Since(start).Round(time.Millisecond)))
+		if d := os.Getenv("GOSYM_DUMP"); d != "" {
+			os.WriteFile(fmt.Sprintf("%s/unknown-%d.smt2", d, time.Now().UnixNano()), []byte(smt.Script(append(append([]*smt.Term(nil), p.pcond...), q))), 0o644)
+		}
 	}
 	// witnesses for known findings
 	for _, id := range p.knownOrder {
 		if _, seen := p.knownHits[id]; seen {
 			continue
 		}
-		p.S.Push()
-		p.S.Assert(C.And(notP, p.known[id]))
-		r, _ := p.S.Check(p.X.Lim.ObligMS)
+		r, m, arrs, _ := p.solve(C.And(notP, p.known[id]), p.X.Lim.ObligMS, true)
 		if r == smt.Sat {
-			if m, arrs, err := p.model(); err == nil {
-				p.knownHits[id] = Violation{Harness: p.X.Harness, Msg: msg, Kind: kind, Script: p.fullScript(), Vars: m, Arrs: arrs, Known: id, Stack: stack, Choices: append([]int(nil), p.choices...)}
-			}
+			p.knownHits[id] = Violation{Harness: p.X.Harness, Msg: msg, Kind: kind, Script: p.fullScript(), Vars: m, Arrs: arrs, Known: id, Stack: stack, Choices: append([]int(nil), p.choices...)}
 		}
-		p.S.Pop()
 	}
 	// continue under the assumption that the obligation holds
 	if r2, _ := p.check(cond, p.X.Lim.FeasMS); r2 == smt.Unsat {
